@@ -864,6 +864,11 @@ func (w *World) apply(o Op) error {
 			// Reverse canonical order is checked by C13; here: every entry exactly once.
 			seen := make([]bool, len(c.Keys))
 			n := 0
+			canon, cerr := w.canonMapOrder(c)
+			if cerr != nil {
+				return cerr
+			}
+			var popSeq []int
 			err = c.Map.PopIterate(func(k, v atree.Storable) {
 				n++
 				if inner != nil {
@@ -886,6 +891,7 @@ func (w *World) apply(o Op) error {
 					return
 				}
 				seen[found] = true
+				popSeq = append(popSeq, found)
 				if e := w.handBack(v, c.Vals[found], false, o.String()); e != nil {
 					inner = e
 					return
@@ -902,6 +908,11 @@ func (w *World) apply(o Op) error {
 			}
 			if n != len(c.Keys) {
 				return violf("%s: popped %d entries, model has %d", o, n, len(c.Keys))
+			}
+			for k := range popSeq {
+				if popSeq[k] != canon[len(canon)-1-k] {
+					return violf("%s: bulk pop yields key %s at position %d, reverse canonical order wants %s", o, MVString(c.Keys[popSeq[k]]), k, MVString(c.Keys[canon[len(canon)-1-k]]))
+				}
 			}
 			c.Keys, c.Vals = nil, nil
 		} else {
@@ -1081,6 +1092,13 @@ func (w *World) apply(o Op) error {
 			return fmt.Errorf("harness: reget of c%d which is not attached", o.C)
 		}
 		return w.Reget(c)
+
+	case "itermut":
+		c, err := w.cont(o.C)
+		if err != nil {
+			return err
+		}
+		return w.iterMut(c, o)
 
 	case "iterget":
 		c := w.Conts[o.C]
@@ -1273,4 +1291,151 @@ func (w *World) universeOfMap(vid atree.ValueID) []MV {
 		}
 	}
 	return u
+}
+
+// iterMut runs a mutable iteration over c and, when the cursor has just yielded position o.I,
+// overwrites that element (o.V a class) or grows the nested container there (o.V == "grow"),
+// then continues.  Every element must be yielded exactly once, in canonical order.
+func (w *World) iterMut(c *Cont, o Op) error {
+	pos := int(o.I)
+	var order []int
+	n := c.Count()
+	if c.IsMap {
+		var err error
+		order, err = w.canonMapOrder(c)
+		if err != nil {
+			return err
+		}
+	} else {
+		for i := 0; i < n; i++ {
+			order = append(order, i)
+		}
+	}
+	if pos >= n {
+		return fmt.Errorf("harness: itermut position %d out of range", pos)
+	}
+	vals := c.Elems
+	if c.IsMap {
+		vals = c.Vals
+	}
+	before := append([]MV(nil), vals...)
+	mutate := func(yielded atree.Value) error {
+		idx := order[pos]
+		if o.V == "grow" {
+			u, _ := Unwrap(before[idx])
+			ch, ok := u.(*Cont)
+			if !ok {
+				return fmt.Errorf("harness: itermut grow on a non-container")
+			}
+			// adopt the handle the iterator handed out, then grow the child through it
+			switch h := unwrapReal(yielded).(type) {
+			case *atree.Array:
+				ch.Arr = h
+			case *atree.OrderedMap:
+				ch.Map = h
+			}
+			w.dropDescendantHandles(ch)
+			for k := 0; k < 3; k++ {
+				w.Serial++
+				ev := MakeSimple("h", w.Serial)
+				if ch.IsMap {
+					key := w.KeyOf(50 + k)
+					if _, err := ch.Map.Set(tu.CompareValue, tu.GetHashInput, ToAtree(key), ToAtree(ev)); err != nil {
+						return violf("%s: growing child map during iteration: %v", o, err)
+					}
+					ch.Keys = append(ch.Keys, key)
+					ch.Vals = append(ch.Vals, ev)
+				} else {
+					if err := ch.Arr.Append(ToAtree(ev)); err != nil {
+						return violf("%s: growing child array during iteration: %v", o, err)
+					}
+					ch.Elems = append(ch.Elems, ev)
+				}
+			}
+			return nil
+		}
+		mv, rv, err := w.newValue(o, c)
+		if err != nil {
+			return err
+		}
+		var old atree.Storable
+		if c.IsMap {
+			old, err = c.Map.Set(tu.CompareValue, tu.GetHashInput, ToAtree(c.Keys[idx]), rv)
+		} else {
+			old, err = c.Arr.Set(uint64(idx), rv)
+		}
+		if err != nil {
+			return violf("%s: overwriting the current element during iteration: %v", o, err)
+		}
+		if c.IsMap {
+			c.Vals[idx] = mv
+		} else {
+			c.Elems[idx] = mv
+		}
+		attach(mv, c)
+		return w.handBack(old, before[idx], false, o.String())
+	}
+	i := 0
+	if c.IsMap {
+		it, err := c.Map.Iterator(tu.CompareValue, tu.GetHashInput)
+		if err != nil {
+			return violf("%s: Iterator: %v", o, err)
+		}
+		for {
+			k, v, err := it.Next()
+			if err != nil {
+				return violf("%s: Next at position %d: %v", o, i, err)
+			}
+			if k == nil {
+				break
+			}
+			if i >= n {
+				return violf("%s: iteration yields more than %d entries (an entry is repeated)", o, n)
+			}
+			if e := w.CmpValue(k, c.Keys[order[i]]); e != nil {
+				return violf("%s: position %d yields key %v, want %s (skipped or repeated)", o, i, k, MVString(c.Keys[order[i]]))
+			}
+			if i != pos || o.V == "grow" {
+				if e := w.CmpValue(v, before[order[i]]); e != nil && i <= pos {
+					return wrapViol(e, fmt.Sprintf("%s: position %d value: ", o, i))
+				}
+			}
+			if i == pos {
+				if err := mutate(v); err != nil {
+					return err
+				}
+			}
+			i++
+		}
+	} else {
+		it, err := c.Arr.Iterator()
+		if err != nil {
+			return violf("%s: Iterator: %v", o, err)
+		}
+		for {
+			v, err := it.Next()
+			if err != nil {
+				return violf("%s: Next at position %d: %v", o, i, err)
+			}
+			if v == nil {
+				break
+			}
+			if i >= n {
+				return violf("%s: iteration yields more than %d elements (an element is repeated)", o, n)
+			}
+			if e := w.CmpValue(v, before[i]); e != nil && !(i == pos && o.V == "grow") {
+				return wrapViol(e, fmt.Sprintf("%s: position %d (skipped or repeated?): ", o, i))
+			}
+			if i == pos {
+				if err := mutate(v); err != nil {
+					return err
+				}
+			}
+			i++
+		}
+	}
+	if i != n {
+		return violf("%s: iteration yields %d elements, want %d (an element is skipped)", o, i, n)
+	}
+	return w.after(c)
 }
